@@ -237,6 +237,17 @@ class Ctx:
                 patched = os.path.join(self.work, "dependency_monitor_patched_test.go")
                 open(patched, "w").write(txt.replace('tls.Listen("tcp", "127.0.0.1:10638"', 'tls.Listen("tcp", "127.0.0.1:0"'))
                 overlay[dm] = patched
+        # auth_oauth2_test.go's init() serves on 127.0.0.1:12345 and kills the test binary when its
+        # probe request fails (port taken by a concurrent check that is just exiting): overlay a
+        # copy that only logs the failed probe
+        oa = os.path.join(REPO, pkg, "auth_oauth2_test.go")
+        if os.path.exists(oa):
+            txt = open(oa).read()
+            probe = '_, err := http.Get("http://localhost:12345")\n\tif err != nil {\n\t\tlogger.Fatal(err)'
+            if probe in txt:
+                patched = os.path.join(self.work, "auth_oauth2_patched_test.go")
+                open(patched, "w").write(txt.replace(probe, probe.replace("logger.Fatal(err)", "logger.Println(err)")))
+                overlay[oa] = patched
         if extra_overlay:
             overlay.update(extra_overlay)
         ov = os.path.join(self.work, "overlay_%s.json" % test)
